@@ -148,19 +148,27 @@ Definition tune_fee (height tuneHeight gas round cur : N) : tuned :=
 (** * costInvalidGas: the fee goes through a FRESH CacheDB on the block overlay and is committed;
     the transaction's own cache (still holding the execution's writes) is left as it is — it is
     emptied by the Reset at the start of the next transaction and never committed. *)
+Definition fail_nocharge (s : state) : result := mkRes s StFail 0 [] 0.
+
 Definition fresh (s : state) : state := mkState [] (st_overlay s) (st_store s).
 
 Definition fee_events (g : N) : list N := if g =? 0 then [] else [g].
 
+(** the charge returned an error: nothing of it is committed and GasConsumed stays 0
+    ([XPanic]: MustToStorageItem's "too large token balance" panic, not an error return) *)
+Definition charge_failed (e : xerr) (s : state) : result :=
+  match e with
+  | XPanic => mkRes s StPanic 0 [] 0
+  | _ => mkRes s StFail 0 [] 0
+  end.
+
 Definition cost_invalid (tx : txp) (s : state) (g : N) : result :=
   match ong_transfer (t_signed tx) (t_payer tx) FEE_GOV_ADDR g (fresh s) with
-  | (_, Some _) => mkRes s StFail 0 [] 0                       (* error: fresh cache dropped, GasConsumed stays 0 *)
+  | (_, Some e) => charge_failed e s                            (* the fresh cache is dropped *)
   | (f, None) =>
       let c := cache_commit f in
       mkRes (mkState (st_cache s) (st_overlay c) (st_store s)) StFail g (fee_events g) (N.of_nat (length (fee_events g)))
   end.
-
-Definition fail_nocharge (s : state) : result := mkRes s StFail 0 [] 0.
 
 Definition tuned_cost_invalid (env : envp) (tx : txp) (s : state) (gas round cap : N) : result :=
   match tune_fee (e_height env) (e_tune env) gas round cap with
@@ -194,7 +202,7 @@ Definition exec_part (env : envp) (tx : txp) (ip : interp) (s : state) (is_charg
                 | TunePanic => mkRes s1 StPanic 0 [] 0
                 | TuneVal g =>
                     match ong_transfer (t_signed tx) (t_payer tx) FEE_GOV_ADDR g s1 with   (* chargeCostGas on sc.CacheDB *)
-                    | (s2, Some _) => fail_nocharge s2
+                    | (s2, Some e) => charge_failed e s2
                     | (s2, None) =>
                         mkRes (cache_commit s2) StSuccess g (fee_events g) (o_events o + N.of_nat (length (fee_events g)))
                     end
